@@ -1,0 +1,207 @@
+//go:build verif
+
+package mqtt
+
+// Contracts for the packet codec (properties C05, C06, C04, C07, C12).
+// This file contains comments only. It is read by the verifier in /verif
+// (build tag "verif"); without the tag it does not exist for the compiler,
+// with the tag it adds no code.
+//
+// Specification functions are written from the MQTT 3.1.1 text
+// (2.2.3 remaining length, 1.5.3 strings, 3.x packets), not from the code.
+
+//@ spec
+//@ func specVarintLen(n int) int {
+//@ 	if n <= 0x7F {
+//@ 		return 1
+//@ 	}
+//@ 	if n <= 0x3FFF {
+//@ 		return 2
+//@ 	}
+//@ 	if n <= 0x1FFFFF {
+//@ 		return 3
+//@ 	}
+//@ 	return 4
+//@ }
+//@
+//@ // k-th byte of the variable-length encoding (MQTT 2.2.3: "encodedByte = X MOD 128;
+//@ // X = X DIV 128; if X > 0 then encodedByte = encodedByte OR 128"), least significant
+//@ // group first, continuation bit on every byte but the last.
+//@ func specVarintByte(n, k int) byte {
+//@ 	g := n % 128
+//@ 	if k == 1 {
+//@ 		g = (n / 128) % 128
+//@ 	}
+//@ 	if k == 2 {
+//@ 		g = (n / (128 * 128)) % 128
+//@ 	}
+//@ 	if k >= 3 {
+//@ 		g = (n / (128 * 128 * 128)) % 128
+//@ 	}
+//@ 	if k+1 < specVarintLen(n) {
+//@ 		g += 128
+//@ 	}
+//@ 	return byte(g)
+//@ }
+//@
+//@ func specVarint(n int) seq {
+//@ 	return mkseq(specVarintLen(n), func(k int) byte { return specVarintByte(n, k) })
+//@ }
+//@
+//@ // decoding of a variable-length integer stored at s[pos..] (MQTT 2.2.3 algorithm, at most 4 bytes)
+//@ func specDecodeVarintLen(s seq, pos int) int {
+//@ 	if sat(s, pos)&0x80 == 0 {
+//@ 		return 1
+//@ 	}
+//@ 	if sat(s, pos+1)&0x80 == 0 {
+//@ 		return 2
+//@ 	}
+//@ 	if sat(s, pos+2)&0x80 == 0 {
+//@ 		return 3
+//@ 	}
+//@ 	return 4
+//@ }
+//@
+//@ func specDecodeVarint(s seq, pos int) int {
+//@ 	v := int(sat(s, pos) & 0x7F)
+//@ 	if sat(s, pos)&0x80 == 0 {
+//@ 		return v
+//@ 	}
+//@ 	v += int(sat(s, pos+1)&0x7F) * 128
+//@ 	if sat(s, pos+1)&0x80 == 0 {
+//@ 		return v
+//@ 	}
+//@ 	v += int(sat(s, pos+2)&0x7F) * 128 * 128
+//@ 	if sat(s, pos+2)&0x80 == 0 {
+//@ 		return v
+//@ 	}
+//@ 	v += int(sat(s, pos+3)&0x7F) * 128 * 128 * 128
+//@ 	return v
+//@ }
+//@
+//@ func specStr(s string) seq { return cat(u16be(uint16(len(s))), bytesOf(s)) }
+//@
+//@ func specBytes(b []byte) seq { return cat(u16be(uint16(len(b))), seqOf(b)) }
+//@
+//@ func specFixed(first byte, body seq) seq {
+//@ 	return cat3(b1(first), specVarint(slen(body)), body)
+//@ }
+//@
+//@ func specAck(first byte, id uint16) seq { return cat3(b1(first), b1(2), u16be(id)) }
+//@
+//@ // concatenation of up to three variadic byte slices
+//@ func flat3(cs [][]byte) seq {
+//@ 	s := seq0()
+//@ 	if len(cs) > 0 {
+//@ 		s = cat(s, seqOf(cs[0]))
+//@ 	}
+//@ 	if len(cs) > 1 {
+//@ 		s = cat(s, seqOf(cs[1]))
+//@ 	}
+//@ 	if len(cs) > 2 {
+//@ 		s = cat(s, seqOf(cs[2]))
+//@ 	}
+//@ 	return s
+//@ }
+//@
+//@ func specPublishFirst(m *Message) byte {
+//@ 	f := byte(0x30)
+//@ 	if m.Retain {
+//@ 		f |= 0x01
+//@ 	}
+//@ 	f |= byte(m.QoS) << 1
+//@ 	if m.Dup {
+//@ 		f |= 0x08
+//@ 	}
+//@ 	return f
+//@ }
+//@
+//@ func specPublish(m *Message) seq {
+//@ 	body := specStr(m.Topic)
+//@ 	if m.QoS != QoS0 {
+//@ 		body = cat(body, u16be(m.ID)) // packet identifier iff QoS > 0
+//@ 	}
+//@ 	return specFixed(specPublishFirst(m), cat(body, seqOf(m.Payload)))
+//@ }
+//@ end
+
+//@ func remainingLength
+//@   mode int
+//@   props C05
+//@   pure
+//@   freshresult
+//@   requires 0 <= n && n <= 0xFFFFFFF
+//@   ensures[C05] seqEq(seqOf(result), specVarint(n))
+
+//@ func appendUint16
+//@   mode int
+//@   props C05
+//@   inline
+//@   ensures[C05] seqEq(seqOf(result), cat(seqOf(b), u16be(v)))
+
+//@ func appendBytes
+//@   mode int
+//@   props C05
+//@   inline
+//@   requires len(s) <= 0xFFFF
+//@   requires !sameArray(b, s)
+//@   ensures[C05] seqEq(seqOf(result), cat3(seqOf(b), u16be(uint16(len(s))), seqOf(s)))
+
+//@ func appendString
+//@   mode int
+//@   props C05
+//@   inline
+//@   requires len(s) <= 0xFFFF
+//@   ensures[C05] seqEq(seqOf(result), cat(seqOf(b), specStr(s)))
+
+//@ func packUint16
+//@   mode int
+//@   props C05
+//@   pure
+//@   freshresult
+//@   ensures[C05] seqEq(seqOf(result), u16be(v))
+
+//@ func pack
+//@   mode int
+//@   props C05
+//@   pure
+//@   freshresult
+//@   requires len(contents) <= 3
+//@   requires slen(flat3(contents)) <= 0xFFFFFFF
+//@   loop 1 unroll 3
+//@   loop 2 unroll 3
+//@   ensures[C05] seqEq(seqOf(result), specFixed(packetType, flat3(contents)))
+
+//@ func (*pktPublish).Pack
+//@   mode int
+//@   props C05
+//@   pure
+//@   freshresult
+//@   requires p != nil && p.Message != nil && p.Message.QoS <= QoS2
+//@   requires len(p.Message.Topic) <= 0xFFFF && len(p.Message.Topic)+len(p.Message.Payload)+4 <= 0xFFFFFFF
+//@   ensures[C05,C12] seqEq(seqOf(result), specPublish(p.Message))
+
+//@ func (*pktPubAck).Pack
+//@   mode int
+//@   props C05
+//@   pure
+//@   freshresult
+//@   requires p != nil
+//@   ensures[C04,C05] seqEq(seqOf(result), specAck(0x40, p.ID))
+
+//@ func unpackUint16
+//@   mode int
+//@   props C06
+//@   pure
+//@   requires len(b) >= 2
+//@   ensures result0 == 2 && result1 == uint16(b[0])<<8|uint16(b[1])
+
+//@ func (*pktPubAck).Parse
+//@   mode int
+//@   props C06
+//@   freshresult
+//@   assigns p.ID
+//@   requires p != nil
+//@   ensures[C06] flag != 0 ==> result1 != nil
+//@   ensures[C06] len(contents) < 2 ==> result1 != nil
+//@   ensures[C06,C07] result1 == nil ==> result0 == p && result0.ID == uint16(contents[0])<<8|uint16(contents[1])
